@@ -1,7 +1,7 @@
 (* C12 -- satisfiability examples: the hypotheses of the theorems are met by non-trivial concrete vectors *)
 From Coq Require Import String Ascii.
 From Coq Require Import NArith ZArith Bool List.
-From CppUVerif Require Import gen.Gen_C12 lib.Str C13_Model C12_Model C12_Proofs C12_Meaning C12_Select C12_Checked C12_Safe.
+From CppUVerif Require Import gen.Gen_C12 lib.Str C13_Model C12_Model C12_Proofs C12_Meaning C12_Select C12_Checked C12_Safe C12_Apply C12_ApplyProofs.
 Import ListNotations.
 Local Open Scope N_scope.
 
@@ -38,3 +38,31 @@ Example ex_memory_old : parse_m_old 5 [B "prog"; B "TEST(grp"] = Oob /\ valid 5 
 Proof. split; vm_compute; reflexivity. Qed.
 Example ex_seed : parse 5 [B "prog"; B "-s"; B "7"; B "-s"] = Accept (set_seed (set_shuf default_config true) 5) /\ parse 5 [B "prog"; B "-v"; B "-s0"] = Reject false.
 Proof. split; vm_compute; reflexivity. Qed.
+
+(* ---------------------------------------------------------------- the runner applies the configuration *)
+Definition ex_av : list bytes := [B "prog"; B "-v"; B "-b"; B "-vv"; B "-r3"; B "-v"; B "-ri"; B "-p"; B "-ggrp"].
+Definition ex_aopts : list doc_opt :=
+  [DVerbose; DReverse; DVeryVerbose; DRepeat (Some (B "3")); DVerbose; DRunIgnored; DSepProcess; DGroup FContains (B "grp")].
+Example ex_vector_applied_hyp : forallb opt_ok ex_aopts = true /\ In (tl ex_av) (render ex_aopts) /\ existsb is_help ex_aopts = false /\
+  exists c, sem 5 ex_aopts = Accept c /\ c_repeat c <= REP_CAP /\ asks_list ex_aopts = false /\ asked_level ex_aopts = 2.
+Proof.
+  split; [vm_compute; reflexivity|]. split; [vm_compute; repeat (first [left; reflexivity | right])|]. split; [reflexivity|].
+  vm_compute. eexists. split; [reflexivity|]. split; [discriminate|]. split; reflexivity.
+Qed.
+(* very verbose although -v comes last, three repetitions, each one backwards (ids 15 = mygrp.myname ... 0 = grp.name), the ignored
+   test grp.ign (2) runs because of -ri, every started test was switched to separate-process mode *)
+Example ex_applied : x_applied (xrun 5 ex_av) =
+  let r := {| r_level := 2; r_color := false; r_seeds := []; r_started := [15; 10; 3; 2; 1; 0]; r_ran := [15; 10; 3; 2; 1; 0]; r_sep := [15; 10; 3; 2; 1; 0] |} in
+  Some (AApplied [{| o_kind := OEclipse; o_pkg := []; o_level := 2; o_color := false |}] [] [r; r; r]).
+Proof. vm_compute. reflexivity. Qed.
+Example ex_applied_list : x_applied (xrun 5 [B "prog"; B "-v"; B "-lg"; B "-r2"; B "-ojunit"; B "-kpk"]) =
+  Some (AApplied [{| o_kind := OJUnit; o_pkg := B "pk"; o_level := 1; o_color := false |}; {| o_kind := OEclipse; o_pkg := []; o_level := 1; o_color := false |}]
+                 (B "grp grp2 Group a ab x other g1 G ig mygrp aaab Looop") []).
+Proof. vm_compute. reflexivity. Qed.
+Example ex_applied_skip : x_applied (xrun 5 [B "prog"; B "-r7"]) = Some ASkipped /\ x_applied (xrun 5 [B "prog"; B "-zz"]) = None.
+Proof. split; vm_compute; reflexivity. Qed.
+Example ex_apply_documented_hyp : c_repeat (set_shuf (set_seed default_config 7) true) <= REP_CAP /\ list_mode (set_listn default_config true) = true.
+Proof. split; [discriminate | reflexivity]. Qed.
+Example ex_rev_inside : exists r, In r (repeat_loop_rev_inside (set_rev default_config true) 2 (initialize_registry (set_rev default_config true) registry0) []) /\
+  r_started r = natural (set_rev default_config true).
+Proof. eexists. split; [right; left; reflexivity | vm_compute; reflexivity]. Qed.
